@@ -55,6 +55,11 @@ CHECKS = {
             "A template program with 17 slots (int/float/string/map/struct/array literals, src/help/outname/special strings, resource numbers, keywords): base, every 1-slot and every 2-slot substitution from per-slot edge-value lists; every optional clause removed singly and in pairs; a comment before each of 22 element positions singly and in pairs, dangling before every closing bracket and inside collections/resource/modifier lists; all 24 orders of four calls; all .mro fixtures of the repository; six include graphs (~4600 accepted sources). Oracle: formatted text parses; an independent reflective canonical rendering of the parsed trees (no positions, numbers by value, calls as a set, modifiers by effect) is equal; comments kept (exactly once unless dangling); format is a fixed point; compiles if the source did; the include-expanded rendering compiles alone with an equal call graph.",
             "sources outside the template/fixture families; semantic equality is judged on unchecked parse trees plus compilation, not on execution",
             "DESIGN.md 4/C09"),
+    "C15": ("exploration",
+            "exhaustive site x edit-catalogue enumeration over base programs, two-sided EquivalentCall oracle plus real re-attach",
+            "10 base programs (nested sub-pipelines, map calls, split stage, struct narrowing, projections, preflight, aliases, nested disabled modifiers, file types, retains) x every applicable site of 11 semantic edit kinds (rename call, change literal/top argument, add stage input/output, retype parameter, toggle split, retarget return, change/remove/add disabled) and 6 cosmetic kinds (reorder declarations, rename file type, add unused declarations, reformat, comments, whitespace): EquivalentCall must be false both ways for semantic and true both ways for cosmetic edits; the first site of each (base, kind) also goes through InvokePipeline + ReattachToPipestance(checkSrc) on a real pipestance directory; attach while locked must be refused and after unlock accepted.",
+            "edits documented as ignored (retain, resources, volatile, chunk params) and switching the callee under an unchanged call name are outside the catalogue (unspecified)",
+            "DESIGN.md 4/C15"),
     "C17": ("exploration",
             "bounded-exhaustive (type, JSON value) enumeration with single-point near-miss mutations against a three-valued reference validator and reference filter",
             "120 types (14 base types incl. six structs x array depth 0-2 x typed-map nesting 0-2); for each a generated set of valid values and every single-point near-miss mutation (wrong kind at each node, 1.0/1.5, extra nesting, extra/missing field), in compact and oddly spaced raw JSON (about 6*10^4 distinct pairs in quick); checks: IsValidJson agrees with the reference wherever it is decided and accepts null; FilterJson is idempotent, equals the reference filter (drops undeclared fields, integral floats to ints) and its result validates; for every ordered type pair (S,D) with D assignable from S every valid S value filtered to D validates for D; assignability is reflexive and component-wise for arrays, typed maps and structs over all 120^2 pairs.",
